@@ -602,6 +602,37 @@ def kernel_case(spec):
     return _guard(_kernel_case, spec, True)
 
 
+
+def rerun_case(spec):
+    """the same RadiosityKang object run twice (another source first): the second result must be
+    the result of a fresh object -- nothing of the earlier run may survive in the histograms"""
+    rng = np.random.default_rng([spec["seed"], 40000 + spec["idx"]])
+    out = {"evaluations": 1, "mismatches": [], "prop_failures": [], "dist": {"rerun": 1}, "nontrivial": []}
+    cfg = draw_cfg(rng, True)
+    tag = dict(cfg, seed=spec["seed"], idx=spec["idx"], rerun=True)
+    out["sample"] = tag
+    fresh, source, receiver = build(cfg)
+    fresh.run(source)
+    E_fresh = impl_E(fresh)
+    resp_fresh = fresh.energy_at_receiver(receiver, ignore_direct=False)
+    reused, _, _ = build(cfg)
+    other = np.array(cfg["src"], dtype=float)
+    other = other + (np.array(cfg["dims"]) / 2 - other) * 0.5
+    reused.run(sp.geometry.SoundSource(other, [0, 1, 0], [0, 0, 1], sound_power=cfg["power"]))
+    reused.run(source)
+    E_again = impl_E(reused)
+    resp_again = reused.energy_at_receiver(receiver, ignore_direct=False)
+    same = all(np.array_equal(a, b) for ka, kb in zip(E_fresh, E_again) for a, b in zip(ka, kb)) \
+        and np.array_equal(resp_fresh, resp_again)
+    if not same:
+        out["prop_failures"].append(dict(
+            test="rerun", case=tag,
+            what="running an object for a second source does not give the fresh object's histograms: energy of the "
+                 "earlier run survives (patches show energy before sound from the active source can reach them)"))
+    out["traces"] = 1
+    out["nontrivial"].append(case_hash(tag))
+    return out
+
 def run(res):
     quick = res.tier == "quick"
     n_scene = 400 if quick else 3000
@@ -610,6 +641,8 @@ def run(res):
     for r in fw.run_parallel(scene_case, specs):
         res.absorb(r)
     for r in fw.run_parallel(kernel_case, [dict(seed=res.seed, idx=i) for i in range(n_kernel)]):
+        res.absorb(r)
+    for r in fw.run_parallel(rerun_case, [dict(seed=res.seed, idx=i) for i in range(8 if res.tier == 'quick' else 80)]):
         res.absorb(r)
     res.rule = ("subsets (2-6, any order) of the walls of shoebox_room_stub rooms with 1-3 patches per side "
                 "(<= 24 patches in the quick tier), dyadic or generic sides, PatchesKang walls with per-wall "
